@@ -25,13 +25,19 @@ import (
 
 // ---------------------------------------------------------------- contexts
 
-// hctx is a context fully under the harness's control whose Err identifies it.
+// hctx is a context fully under the harness's control whose Err identifies it. Like
+// hand-written contexts in the wild (merged or shutdown-aware contexts) it has its own Done and
+// Err but inherits its values from a standard, cancellable parent that stays alive: whether it
+// is done can only be learnt from Done/Err, not from the standard library's cancel contexts
+// reachable through Value.
 type hctx struct {
-	id   int
-	dl   bool // ends like an expired deadline (errors.Is DeadlineExceeded) instead of a cancel
-	mu   sync.Mutex
-	done chan struct{}
-	err  atomic.Value // *ctxErr
+	parent       context.Context
+	parentCancel context.CancelFunc
+	id           int
+	dl           bool // ends like an expired deadline (errors.Is DeadlineExceeded) instead of a cancel
+	mu           sync.Mutex
+	done         chan struct{}
+	err          atomic.Value // *ctxErr
 }
 
 type ctxErr struct {
@@ -47,11 +53,14 @@ func (e *ctxErr) Unwrap() error {
 	return context.Canceled
 }
 
-func newCtx(id int, dl bool) *hctx { return &hctx{id: id, dl: dl, done: make(chan struct{})} }
+func newCtx(id int, dl bool) *hctx {
+	p, cancel := context.WithCancel(context.Background())
+	return &hctx{parent: p, parentCancel: cancel, id: id, dl: dl, done: make(chan struct{})}
+}
 
-func (c *hctx) Deadline() (time.Time, bool)   { return time.Time{}, false }
-func (c *hctx) Done() <-chan struct{}         { return c.done }
-func (c *hctx) Value(interface{}) interface{} { return nil }
+func (c *hctx) Deadline() (time.Time, bool)       { return time.Time{}, false }
+func (c *hctx) Done() <-chan struct{}             { return c.done }
+func (c *hctx) Value(key interface{}) interface{} { return c.parent.Value(key) }
 func (c *hctx) Err() error {
 	if e, ok := c.err.Load().(*ctxErr); ok {
 		return e
